@@ -375,7 +375,7 @@ def native_replay(ob, r, vals, rdir):
     # the whole repo (archive members are only pulled for symbols the driver does not define itself)
     cmd = ['gcc', '-g', '-O0', '-w', '-fsanitize=address', '-fno-omit-frame-pointer',
            '-DHAVE_CONFIG_H', '-D_FILE_OFFSET_BITS=64', '-DVERIF_NATIVE', '-DVERIF_ENTRY=' + ob.entry,
-           '-DVERIF_REPLAY_VALUES="%s"' % valf] + defs + ob.incl_first + INCLUDES + [os.path.join(VERIF, ob.harness), lib, '-o', exe,
+           '-DVERIF_REPLAY_VALUES="%s"' % valf] + defs + (['-I' + os.path.join(r['dir'], 'inj')] if ob.inject else []) + ob.incl_first + INCLUDES + [os.path.join(VERIF, ob.harness), lib, '-o', exe,
            '-lpthread', '-lm', '-lblkid'] + ob.native_libs
     with open(os.path.join(rdir, 'replay.sh'), 'w') as f:
         f.write('#!/bin/sh\n# native replay of the cbmc counterexample against the real code\n')
@@ -543,7 +543,7 @@ def main():
         print(line, flush=True)
 
     wall = time.time() - t0
-    write_evidence(pid, tier, seed, spec, obs, results, wall, len(violations), known_hits, undecided)
+    write_evidence(pid, tier, seed, spec, obs, results, wall, len(violations), known_hits, undecided, partial=bool(only))
     n_ok = sum(1 for o in obs if results[o.name]['status'] == 'discharged')
     print('%s %s: %d/%d obligation units discharged, %d cbmc obligations, %d violations, %d undecided, %.0fs' % (
         pid, tier, n_ok, len(obs), sum(results[o.name]['n_ok'] for o in obs), len(violations), len(undecided), wall))
@@ -556,7 +556,7 @@ def main():
     return 0
 
 
-def write_evidence(pid, tier, seed, spec, obs, results, wall, nviol, known_hits, undecided):
+def write_evidence(pid, tier, seed, spec, obs, results, wall, nviol, known_hits, undecided, partial=False):
     units = []
     funcs = {}
     assumptions = list(spec.get('assumptions', []))
@@ -612,7 +612,8 @@ def write_evidence(pid, tier, seed, spec, obs, results, wall, nviol, known_hits,
     ev = dict(property_id=pid, tier=tier, seed=seed, level=spec['level'], coverage=cov, assumptions=assumptions,
               wall_s=round(wall, 2), violations=nviol)
     os.makedirs(os.path.join(VERIF, 'evidence'), exist_ok=True)
-    with open(os.path.join(VERIF, 'evidence', pid + '.json'), 'w') as f:
+    # a run restricted with --only is a debugging aid: it must not replace the evidence of the full check
+    with open(os.path.join(VERIF, 'work' if partial else 'evidence', pid + ('.partial.json' if partial else '.json')), 'w') as f:
         json.dump(ev, f, indent=1)
 
 
